@@ -407,27 +407,9 @@ func (x *Exec) enterLoop(fr *Frame, lr *loopRec, st *State) *State {
 		}
 		x.assume(st, fmt.Sprintf("(forall ((%s Int)) (! (=> %s (= (select %s %s) (select %s %s))) :pattern ((select %s %s))))", q, And(conds...), nh, q, x.heap0(t), q, nh, q))
 	}
-	// heaps in which the loop only initialises regions it allocates itself:
-	// every region that existed before the loop keeps its contents
-	if !lr.modAll {
-		var fk []string
-		for k := range lr.modFresh {
-			if _, also := lr.modHeaps[k]; !also {
-				fk = append(fk, k)
-			}
-		}
-		sort.Strings(fk)
-		for _, k := range fk {
-			t := lr.modFresh[k]
-			hpre := x.heap(st, t)
-			nh := x.S.Const("hf", x.te.HeapSort(t))
-			x.bumpHeapVersion(st)
-			st.heaps[k] = nh
-			x.heapTypes[k] = t
-			q := x.S.Fresh("qr")
-			x.assume(st, fmt.Sprintf("(forall ((%s Int)) (! (=> (< %s %s) (= (select %s %s) (select %s %s))) :pattern ((select %s %s))))", q, q, pre.nr, nh, q, hpre, q, nh, q))
-		}
-	}
+	// heaps in which the loop only initialises regions it allocates itself keep
+	// their value: allocation is modelled as learning the contents of a region
+	// that was unconstrained so far (see makeSlice / alloc)
 	// ghost state may be advanced by calls inside the loop
 	if lr.hasCall {
 		for g := range st.ghost {
